@@ -100,6 +100,62 @@ def _reflect_norm(tree):
     return ast.fix_missing_locations(tree)
 
 
+def _booltable_norm(tree):
+    """`T[<boolean expression>]` with T a module-level dict display bound once in the same module, never written, whose keys are
+    exactly True and False and whose values are literals  ->  `T[True] if <expr> else T[False]` (spelled with the literals)."""
+    import copy as _copy
+    cand, count = {}, {}
+    for st in tree.body:
+        for t in (st.targets if isinstance(st, ast.Assign) else [st.target] if isinstance(st, (ast.AnnAssign, ast.AugAssign)) else []):
+            for n in ast.walk(t):
+                if isinstance(n, ast.Name):
+                    count[n.id] = count.get(n.id, 0) + 1
+        if isinstance(st, ast.Assign) and len(st.targets) == 1 and isinstance(st.targets[0], ast.Name) and isinstance(st.value, ast.Dict) \
+                and len(st.value.keys) == 2 and all(isinstance(k, ast.Constant) and isinstance(k.value, bool) for k in st.value.keys) \
+                and {k.value for k in st.value.keys} == {True, False} \
+                and all(isinstance(v, ast.Constant) or (isinstance(v, ast.Tuple) and all(isinstance(x, ast.Constant) for x in v.elts)) for v in st.value.values):
+            cand[st.targets[0].id] = {k.value: v for k, v in zip(st.value.keys, st.value.values)}
+    cand = {k: v for k, v in cand.items() if count.get(k) == 1}
+    if not cand:
+        return tree
+    for n in ast.walk(tree):
+        # any other binding or write of the name anywhere in the module disqualifies it
+        if isinstance(n, ast.Name) and n.id in cand and not isinstance(n.ctx, ast.Load) and n.col_offset != 0:
+            cand.pop(n.id)
+        elif isinstance(n, (ast.arg,)) and n.arg in cand:
+            cand.pop(n.arg)
+        elif isinstance(n, ast.Subscript) and isinstance(n.value, ast.Name) and n.value.id in cand and not isinstance(n.ctx, ast.Load):
+            cand.pop(n.value.id)
+        elif isinstance(n, ast.Call) and isinstance(n.func, ast.Attribute) and isinstance(n.func.value, ast.Name) and n.func.value.id in cand \
+                and n.func.attr not in ('get', 'keys', 'values', 'items', 'copy'):
+            cand.pop(n.func.value.id)
+        elif isinstance(n, (ast.Global, ast.Nonlocal)):
+            pass
+    if not cand:
+        return tree
+
+    def boolean(e):
+        if isinstance(e, ast.Compare):
+            return True
+        if isinstance(e, ast.UnaryOp) and isinstance(e.op, ast.Not):
+            return True
+        if isinstance(e, ast.BoolOp):
+            return all(boolean(v) for v in e.values)
+        if isinstance(e, ast.Call) and isinstance(e.func, ast.Name) and e.func.id in ('bool', 'isinstance', 'callable', 'hasattr'):
+            return True
+        return False
+
+    class T(ast.NodeTransformer):
+        def visit_Subscript(self, n):
+            self.generic_visit(n)
+            if isinstance(n.ctx, ast.Load) and isinstance(n.value, ast.Name) and n.value.id in cand and boolean(n.slice):
+                d = cand[n.value.id]
+                new = ast.IfExp(test=n.slice, body=_copy.deepcopy(d[True]), orelse=_copy.deepcopy(d[False]))
+                return ast.fix_missing_locations(ast.copy_location(new, n))
+            return n
+    return T().visit(tree)
+
+
 class Module:
     def __init__(self, name, path, relpath, src):
         self.name = name
@@ -107,7 +163,7 @@ class Module:
         self.relpath = relpath
         self.src = src
         self.sha256 = hashlib.sha256(src.encode('utf-8')).hexdigest()
-        self.tree = _reflect_norm(ast.parse(src, filename=path))
+        self.tree = _booltable_norm(_reflect_norm(ast.parse(src, filename=path)))
         self.is_package = os.path.basename(path) == '__init__.py'
         self.bindings = {}     # name -> Binding
         self.funcs = {}        # top-level functions
